@@ -28,7 +28,7 @@ def build(V, cfg):
     wn.add_tank('T', elevation=0.0, init_level=5.0, min_level=1.0, max_level=10.0, diameter=DIAM)
     wn.add_pipe('P1', 'R', 'J1', length=100.0, diameter=0.5, roughness=100.0)
     if cfg.get('tank_link', 'pipe_in') == 'pipe_in':
-        wn.add_pipe('P2', 'J1', 'T', length=100.0, diameter=0.5, roughness=100.0)      # ends in the tank
+        wn.add_pipe('P2', 'J1', 'T', length=100.0, diameter=0.5, roughness=100.0, check_valve=bool(cfg.get('p2_cv')))      # ends in the tank
     else:
         wn.add_pipe('P2', 'T', 'J1', length=100.0, diameter=0.5, roughness=100.0)      # starts at the tank
     wn.add_pipe('P3', 'J1', 'J2', length=100.0, diameter=0.3, roughness=100.0)          # target of the user controls
@@ -54,6 +54,11 @@ def build(V, cfg):
         x['init'] = V.real('init_level', 0, 20)
         V.c.assume(x['min'] + 0.5 <= x['init']) if V.symbolic else None
         V.c.assume(x['init'] + 0.5 <= x['max']) if V.symbolic else None
+        if cfg.get('vol_curve') and V.symbolic:
+            # keep the level limits strictly inside the curve's range: at the very ends np.interp clamps and the partial step that
+            # lands one second past a limit would leave the curve (documented validity: limits within the curve)
+            V.c.assume(x['min'] >= 0.5)
+            V.c.assume(x['max'] <= 19.0)
     tank._init_level = x['init']
     tank._head = tank._prev_head = x['init'] + tank.elevation
     x['controls'] = []
@@ -66,6 +71,12 @@ def build(V, cfg):
         ctl = Control(cond, ControlAction(p3, 'status', LinkStatus(spec['value'])), priority=ControlPriority(spec.get('priority', 3)))
         wn.add_control('u%d' % k, ctl)
         x['controls'].append(dict(spec, thr=thr))
+    if cfg.get('time_control'):
+        # a user time control of high priority somewhere inside the run (its instant may fall in the step in which a level limit is reached)
+        from wntr.network.controls import SimTimeCondition
+        cnd = SimTimeCondition(wn, Comparison.eq, 0)
+        cnd._threshold = V.int('t_user', 0, cfg['dur'])
+        wn.add_control('user_time', Control(cnd, ControlAction(p3, 'status', LinkStatus.Closed), priority=ControlPriority(5)))
     if cfg.get('p3_closed'):
         p3.initial_status = LinkStatus.Closed
         p3._user_status = LinkStatus.Closed
